@@ -31,7 +31,7 @@ func exploreBFSOpts(r *evid.Run, name string, o bfs.Options) *bfs.Result {
 	if !ok {
 		panic("unknown system " + name)
 	}
-	sys := mk()
+	sys := guardSystem(r.ID, mk())
 	t0 := time.Now()
 	res := bfs.Explore(sys, o)
 	r.Add("states", res.States)
@@ -85,7 +85,7 @@ func replayHistory(rp *evid.Replay) ([]choice.Failure, bool) {
 	if !ok {
 		return nil, false
 	}
-	sys := mk()
+	sys := guardSystem(rp.Property, mk())
 	// check every prefix so the first failing step is shown
 	var fails []choice.Failure
 	for i := 0; i <= len(rp.Vector); i++ {
